@@ -26,6 +26,8 @@ pub mod c16;
 #[cfg(feature = "sdk")]
 pub mod c17;
 #[cfg(feature = "sdk")]
+pub mod c17sys;
+#[cfg(feature = "sdk")]
 pub mod c18;
 #[cfg(feature = "sdk")]
 pub mod c19;
